@@ -39,6 +39,7 @@ ALL_FEATURES = (
     "defines",
     "code_lookup",
     "branch_edges",
+    "ips",
 )
 # "big_incbin" (a >64 KiB contiguous block) is opt-in: callers add it explicitly with a low probability.
 
@@ -354,6 +355,7 @@ class Gen:
         self.cur_macro: str | None = None
         self.body_names: list[set[str]] = [set()]
         self.edges = 0
+        self.n_ips = 0
 
     def note_label(self, name: str) -> None:
         self.prog.label_sites.append((name, self.cur_for == 0, self.cur_macro))
@@ -536,6 +538,8 @@ class Gen:
                 choices.append(("macro_def", 1.0))
             if "incbin" in f:
                 choices.append(("incbin", 0.6))
+            if "ips" in f and self.n_ips < 2:
+                choices.append(("ips", 0.6))
             if "table" in f and not self.has_table:
                 choices.append(("table", 0.8))
         total = sum(w for _, w in choices)
@@ -682,6 +686,24 @@ class Gen:
             self.prog.files[rel] = bytes(rng.randrange(256) for _ in range(rng.choice([1, 2, 7, 16, 40, 64])))
             self.prog.roles[rel] = "incbin"
             return [stmt(f".incbin '{rel}'", "incbin")]
+        if kind == "ips":
+            # a small well-formed third-party patch whose targets lie in a zone the program never writes
+            from .ipsref import encode
+
+            self.n_ips += 1
+            rel = f"{self.prefix}patch{self.uid()}.ips"
+            delta = rng.choice([0, 0, 0x200, -0x200, 0x1000])
+            recs = []
+            for _ in range(rng.randrange(1, 4)):
+                target = rng.randrange(0x300000, 0x3E0000)
+                if rng.random() < 0.3:
+                    recs.append((target - delta, "rle", (rng.randrange(1, 40), rng.randrange(256))))
+                else:
+                    recs.append((target - delta, "plain", bytes(rng.randrange(256) for _ in range(rng.randrange(1, 24)))))
+            self.prog.files[rel] = encode(recs)
+            self.prog.roles[rel] = "ips_in"
+            expr = f"{delta:#x}" if delta >= 0 else f"-{-delta:#x}"
+            return [stmt(f".include_ips '{rel}', {expr}", "include_ips")]
         if kind == "table":
             rel = f"{self.prefix}tbl{self.uid()}.tbl"
             chars = rng.sample("ABCDEFGHIJKLMNOPQRSTUVWXYZabcdefgh", rng.randrange(3, 12))
